@@ -6,6 +6,7 @@ import (
 	"go/token"
 	"go/types"
 	"sort"
+	"strings"
 
 	"golang.org/x/tools/go/packages"
 )
@@ -249,4 +250,63 @@ func isSyncType(t types.Type) bool {
 	}
 	nm := namedOf(t)
 	return nm != nil && nm.Obj().Pkg() != nil && (nm.Obj().Pkg().Path() == "sync" || nm.Obj().Pkg().Path() == "sync/atomic")
+}
+
+// ---------------------------------------------------------------------------
+// R11.2 generators share no mutable table
+//
+// The registration methods of a generator keep the map they are given and
+// merge later registrations into it in place (RegisterMethods, AddConstant
+// ...). A table that lives in a package level variable and is handed to
+// every new generator is therefore written by the set-up of one generator
+// while the evaluations of another one read it: a data race on a Go map (a
+// fatal error when it is hit), and the functions of one generator start to
+// answer with the methods of another one.
+
+func ruleR112(c *Ctx) {
+	n := 0
+	for _, pkg := range c.RepoPkgs {
+		if !strings.HasPrefix(pkg.PkgPath, modPath) || strings.HasSuffix(pkg.PkgPath, "/example") {
+			continue
+		}
+		info := pkg.TypesInfo
+		forEachFuncBody([]*packages.Package{pkg}, func(_ *packages.Package, fn ast.Node, body *ast.BlockStmt) {
+			inspectNoLit(body, func(x ast.Node) bool {
+				call, ok := x.(*ast.CallExpr)
+				if !ok {
+					return true
+				}
+				sel, ok := ast.Unparen(call.Fun).(*ast.SelectorExpr)
+				if !ok {
+					return true
+				}
+				rn := namedOf(info.TypeOf(sel.X))
+				if rn == nil || rn.Obj().Name() != "FunctionGenerator" {
+					return true
+				}
+				for i, a := range call.Args {
+					t := info.TypeOf(a)
+					if t == nil {
+						continue
+					}
+					if _, isMap := t.Underlying().(*types.Map); !isMap {
+						continue
+					}
+					n++
+					key := fmt.Sprintf("%s#%s:arg%d[%d]", c.FuncName(fn)+litSuffix(c, fn), sel.Sel.Name, i, n)
+					if id, ok := ast.Unparen(a).(*ast.Ident); ok {
+						if v, ok := info.ObjectOf(id).(*types.Var); ok && v.Pkg() != nil && v.Parent() == v.Pkg().Scope() {
+							c.Violation(key, call.Pos(), "the package level table %s is handed to %s of a generator, which keeps the map and merges later registrations into it in place: every generator created from now on shares it, the set-up of one generator writes the map that running evaluations of another one read (data race on a Go map), and a method registered at one generator answers at all of them", id.Name, sel.Sel.Name)
+							continue
+						}
+					}
+					c.OK(key, call.Pos(), "the table handed to %s is created for this generator", sel.Sel.Name)
+				}
+				return true
+			})
+		})
+	}
+	if n < 4 {
+		c.Undecided("value#table-registrations", token.NoPos, "only %d tables handed to a generator found", n)
+	}
 }
